@@ -122,6 +122,7 @@ trait Ext<B: Fld>: FieldElement<BaseField = B> + ExtensionOf<B> + Serializable +
     fn t_square(a: &[B]) -> Vec<B>;
     fn t_mul_base(a: &[B], b: B) -> Vec<B>;
     fn exp_u(self, e: u128) -> Self;
+    fn expv_u(self, e: u128) -> Self;
     fn exp_bits() -> u32;
     fn try_u64(v: u64) -> Result<Self, ()>;
     fn try_u128(v: u128) -> Result<Self, ()>;
@@ -160,6 +161,9 @@ macro_rules! impl_ext {
             }
             fn exp_u(self, e: u128) -> Self {
                 self.exp(e as $pi)
+            }
+            fn expv_u(self, e: u128) -> Self {
+                self.exp_vartime(e as $pi)
             }
             fn exp_bits() -> u32 {
                 <$pi>::BITS
@@ -468,6 +472,27 @@ fn exec_e<B: Fld, E: Ext<B>>(raw: bool, t: &[&str]) -> Outcome {
             let r = es[0].exp_u(e);
             check(Outcome::ok(fmt_e(&r)), op, &r, &oc.pow(&vs[0], e))
         },
+        // twin entry points (DESIGN 9.5 lesson 14): the trait defaults `cube` and `exp_vartime` (math/src/field/traits.rs),
+        // which the extension types inherit; residues only are compared with the model's mul / exp
+        "cube" => {
+            let Some((es, vs, extra)) = parse_elems::<B, E>(raw, rest, 1) else { return Outcome::ok("bad-op") };
+            if !extra.is_empty() {
+                return Outcome::ok("bad-op");
+            }
+            let r = es[0].cube();
+            let o = Outcome::ok(vals(&r).iter().map(|x| x.to_string()).collect::<Vec<_>>().join(" "));
+            check(o, op, &r, &oc.mul(&oc.mul(&vs[0], &vs[0]), &vs[0]))
+        },
+        "expv" => {
+            let Some((es, vs, extra)) = parse_elems::<B, E>(raw, rest, 1) else { return Outcome::ok("bad-op") };
+            if extra.len() != 1 {
+                return Outcome::ok("bad-op");
+            }
+            let e = if E::exp_bits() == 64 { extra[0] & 0xFFFF_FFFF_FFFF_FFFF } else { extra[0] };
+            let r = es[0].expv_u(e);
+            let o = Outcome::ok(vals(&r).iter().map(|x| x.to_string()).collect::<Vec<_>>().join(" "));
+            check(o, "exp_vartime", &r, &oc.pow(&vs[0], e))
+        },
         "ser" => {
             let Some((es, vs, extra)) = parse_elems::<B, E>(raw, rest, 1) else { return Outcome::ok("bad-op") };
             if !extra.is_empty() {
@@ -495,6 +520,17 @@ fn exec_e<B: Fld, E: Ext<B>>(raw: bool, t: &[&str]) -> Outcome {
             match E::from_random_bytes(&bytes) {
                 Some(y) if y == a => {},
                 _ => o = o.fail(format!("{}.roundtrip.random", E::TAG), "from_random_bytes(to_bytes(x)) != x"),
+            }
+            // write_into on a caller's (non-empty) writer next to to_bytes; Display shows the canonical coordinates
+            let mut w: Vec<u8> = vec![0xa5];
+            a.write_into(&mut w);
+            if w[0] != 0xa5 || w[1..] != exp[..] {
+                o = o.fail(format!("{}.write_into", E::TAG), "write_into does not append the canonical encoding");
+            }
+            let shown = format!("{}", a);
+            let want = format!("({})", vs[0].iter().map(|v| v.to_string()).collect::<Vec<_>>().join(", "));
+            if shown != want {
+                o = o.fail(format!("{}.display", E::TAG), format!("printed as {} instead of {}", shown, want));
             }
             o
         },
@@ -862,7 +898,27 @@ fn exec_e<B: Fld, E: Ext<B>>(raw: bool, t: &[&str]) -> Outcome {
 }
 
 // ------------------------------------------------------------------------------------ generators
-fn gen_e<B: Fld, E: Ext<B>>(rng: &mut Rng, tier: Tier, n_rand: usize, emit: &mut dyn FnMut(String)) {
+fn gen_e<B: Fld, E: Ext<B>>(rng: &mut Rng, tier: Tier, n_rand: usize, emit0: &mut dyn FnMut(String)) {
+    // twins on the grids of their twins: every `exp` line is followed by the same line for `exp_vartime`, every second
+    // `sq` line by the same operand for `cube`
+    let mut sq_seen = 0usize;
+    let mut emit = |l: String| {
+        let twin = {
+            let mut it = l.splitn(3, ' ');
+            match (it.next(), it.next(), it.next()) {
+                (Some(tg), Some("exp"), Some(rest)) => Some(format!("{} expv {}", tg, rest)),
+                (Some(tg), Some("sq"), Some(rest)) => {
+                    sq_seen += 1;
+                    if sq_seen % 2 == 0 { Some(format!("{} cube {}", tg, rest)) } else { None }
+                },
+                _ => None,
+            }
+        };
+        emit0(l);
+        if let Some(t) = twin {
+            emit0(t);
+        }
+    };
     let tag = E::TAG;
     let rtag = format!("r{}", tag);
     let n = E::N;
